@@ -29,10 +29,14 @@ class CoopLock:
     """Replacement for threading.Lock/RLock objects inside utype: blocking gives the baton away instead of
     blocking the OS thread (which would stall the simulation); 'everyone blocked' is reported as a deadlock."""
 
+    ALL = []     # every cooperative lock made in this process (reset between worlds: a lock left held by a run that went
+                 # wrong must not leak into the next run)
+
     def __init__(self, reentrant=False):
         self.reentrant = reentrant
         self.owner = None
         self.count = 0
+        CoopLock.ALL.append(self)
 
     def acquire(self, blocking=True, timeout=-1):
         sched = CURRENT[0]
@@ -85,6 +89,12 @@ class _ThreadingShim:
 
     def __getattr__(self, name):
         return getattr(self._real, name)
+
+
+def reset_coop_locks():
+    for lk in CoopLock.ALL:
+        lk.owner = None
+        lk.count = 0
 
 
 def install_coop_locks():
